@@ -19,9 +19,15 @@ Definition spec_pipe {T : Type} (n : N) (f : Z -> T -> T) (a : T) : T :=
 
 Record case := mk { arity : N; fam : N; input : list Z; observed : list Z }.
 
+(* family 4: family 2, except that stage (n+1)/2 of the outermost call also calls the whole pipeline on [100] and
+   appends the length of what comes back (n + 1) *)
+Definition fam4 (n : N) (i : Z) (l : list Z) : list Z :=
+  if Z.eqb i ((Z.of_N n + 1) / 2) then l ++ [i; Z.of_nat (length (spec_pipe n fam2 [100]))] else l ++ [i].
+
 Definition required (c : case) : option (list Z) :=
   match fam c with
   | 2%N | 3%N => Some (spec_pipe (arity c) fam2 (input c))
+  | 4%N => Some (spec_pipe (arity c) (fam4 (arity c)) (input c))
   | f => match input c with [x] => Some [spec_pipe (arity c) (fam01 f) x] | _ => None end
   end.
 Definition agree (o : option (list Z)) (obs : list Z) : bool := match o with Some l => lz_eqb l obs | None => false end.
